@@ -59,4 +59,16 @@ MORE = {
         note=TB,
         tech="contract-based deductive verification (Verus): value postconditions independent of the flags argument",
         ref="4/C11"),
+    "C07": dict(
+        text="Partial proof (Verus): (1) ChiaDialect::op is proved equal to an operator table written as a specification, and lemmas on that "
+             "table show that any subset of the restriction flags (NO_UNKNOWN_OPS, CANONICAL_INTS, DISABLE_OP, LIMIT_SOFTFORK, LIMITS, "
+             "LIMIT_HEAP; MEMPOOL_MODE is one) never changes WHICH operator an opcode selects: it can only turn the selection into the "
+             "Unimplemented error (modpow under DISABLE_OP, unknown opcodes under NO_UNKNOWN_OPS); (2) uint_atom under CANONICAL_INTS "
+             "accepts a subset of what it accepts without and returns the same value; (3) the operators under contract (if, cons, first, "
+             "rest, listp, raise, eq, not, any, all, strlen, concat) have value and cost clauses that do not mention the restriction flags; "
+             "(4) apply_op's LIMIT_SOFTFORK test only adds a failure. Whole-run monotonicity is the composition of these (relational, not "
+             "mechanised); operators not under contract (arithmetic, BLS incl. RELAXED_BLS, hashing) are outside the claim.",
+        note=TB + "The 47 operator functions enter the dispatch proof as ASSUMED deterministic witnesses (listed one by one).",
+        tech="contract-based deductive verification (Verus): the real 45-arm dispatch (after rewrite R17) against a table specification, plus lemmas over the table",
+        ref="4/C07, 11.1"),
 }
